@@ -172,46 +172,129 @@ func checkC16(r *core.Run) {
 	// branch where a global transaction exists and calls the chosen one after the join)
 	// recvTypes: concrete types the receiver variable of an interface call can hold, from the constructor calls
 	// assigned to it in the same function, each with whether some assignment is unguarded (mini points-to).
+	// valueTypes: the concrete types an interface-typed expression of f can hold, each with whether some way of
+	// producing it is unguarded (true = open). Followed: a local variable (its definitions), a constructor call,
+	// a helper of the repository that itself hands back the interface (its return expressions, each guarded by the
+	// helper's own tests or by the guard of the call to the helper), a function value taken from a dispatch table
+	// (every function the table holds). nil: something the rule cannot see through.
+	var valueTypes func(f *core.FuncInfo, e ast.Expr, outerGuarded bool, depth int) map[*types.Named]bool
+	valueTypes = func(f *core.FuncInfo, e ast.Expr, outerGuarded bool, depth int) map[*types.Named]bool {
+		if depth <= 0 {
+			return nil
+		}
+		info := f.Pkg.TypesInfo
+		out := map[*types.Named]bool{}
+		add := func(t *types.Named, open bool) {
+			if open {
+				out[t] = true
+			} else if _, seen := out[t]; !seen {
+				out[t] = false
+			}
+		}
+		merge := func(m map[*types.Named]bool) bool {
+			if m == nil {
+				return false
+			}
+			for t, open := range m {
+				add(t, open)
+			}
+			return true
+		}
+		e = ast.Unparen(e)
+		switch x := e.(type) {
+		case *ast.Ident:
+			v, ok := info.Uses[x].(*types.Var)
+			if !ok || v.IsField() || isParam(f, v) {
+				return nil
+			}
+			for _, d := range localDefs(f, v) {
+				if bl, ok := d.rhs.(*ast.BasicLit); ok && bl.Value == "zero" {
+					continue // `var x T` without a value
+				}
+				if d.idx > 0 || d.rng {
+					return nil
+				}
+				if !merge(valueTypes(f, d.rhs, outerGuarded, depth)) {
+					return nil
+				}
+			}
+			return out
+		case *ast.CallExpr:
+			g := w.Info(core.Callee(info, x))
+			open := !(guarded[x] || outerGuarded)
+			var targets []*core.FuncInfo
+			if g != nil {
+				targets = []*core.FuncInfo{g}
+			} else {
+				for _, t := range w.TableTargets(f, x) {
+					if ti := w.Info(t); ti != nil {
+						targets = append(targets, ti)
+					} else {
+						return nil
+					}
+				}
+			}
+			if len(targets) == 0 {
+				return nil
+			}
+			for _, g := range targets {
+				ts := returnedTypes(g)
+				if len(ts) == 0 {
+					return nil
+				}
+				iface := false
+				for _, t := range ts {
+					if types.IsInterface(t) {
+						iface = true
+					}
+				}
+				if !iface {
+					for _, t := range ts {
+						add(t, open)
+					}
+					continue
+				}
+				// the callee hands out an interface value itself: what its returns can hold
+				if g.Decl.Body == nil || !scope(g) {
+					return nil
+				}
+				okAll := true
+				ast.Inspect(g.Decl.Body, func(n ast.Node) bool {
+					if _, isLit := n.(*ast.FuncLit); isLit {
+						return false
+					}
+					rs, isRet := n.(*ast.ReturnStmt)
+					if !isRet || len(rs.Results) == 0 {
+						return true
+					}
+					if !merge(valueTypes(g, rs.Results[0], !open, depth-1)) {
+						okAll = false
+					}
+					return true
+				})
+				if !okAll {
+					return nil
+				}
+			}
+			return out
+		case *ast.UnaryExpr:
+			if x.Op == token.AND {
+				if cl, ok := ast.Unparen(x.X).(*ast.CompositeLit); ok {
+					if nt, ok := info.TypeOf(cl).(*types.Named); ok {
+						add(nt, !outerGuarded)
+						return out
+					}
+				}
+			}
+		}
+		return nil
+	}
 	recvTypes := func(f *core.FuncInfo, call *ast.CallExpr) map[*types.Named]bool {
 		sel, ok := ast.Unparen(call.Fun).(*ast.SelectorExpr)
 		if !ok {
 			return nil
 		}
-		v, ok := core.ObjOf(f.Pkg.TypesInfo, sel.X).(*types.Var)
-		if !ok || v.IsField() || isParam(f, v) {
-			return nil
-		}
-		out := map[*types.Named]bool{}
-		for _, d := range localDefs(f, v) {
-			if bl, ok := d.rhs.(*ast.BasicLit); ok && bl.Value == "zero" {
-				continue // `var x T` without a value
-			}
-			c, ok := ast.Unparen(d.rhs).(*ast.CallExpr)
-			if !ok {
-				return nil // assigned from something we cannot see through
-			}
-			g := w.Info(core.Callee(f.Pkg.TypesInfo, c))
-			if g == nil {
-				return nil
-			}
-			ts := returnedTypes(g)
-			if len(ts) == 0 {
-				return nil
-			}
-			for _, t := range ts {
-				if types.IsInterface(t) {
-					return nil // the constructor itself hands out an interface value: unknown concrete type
-				}
-			}
-			for _, t := range ts {
-				if !guarded[c] {
-					out[t] = true
-				} else if _, seen := out[t]; !seen {
-					out[t] = false
-				}
-			}
-		}
-		return out
+		return valueTypes(f, sel.X, false, 3)
 	}
 	ctorGuard := func(f *core.FuncInfo, cs *core.CallSite, target *types.Func) bool {
 		rt := recvTypes(f, cs.Call)
@@ -577,10 +660,14 @@ func c16Dispatch(r *core.Run) {
 			ctxParam = p
 		}
 	}
-	sp := &flow.Spec{W: w, Depth: 0, Split: []flow.Tag{"true:isglobal", "false:isglobal"},
+	var sp *flow.Spec
+	sp = &flow.Spec{W: w, Depth: 0, Split: []flow.Tag{"true:isglobal", "false:isglobal"},
 		Classify: func(pkg *packages.Package, call *ast.CallExpr, callee *types.Func) []flow.Tag {
-			if core.IsPkgFunc(callee, pTM, "IsGlobalTx") && len(call.Args) == 1 && isObj(pkg.TypesInfo, call.Args[0], ctxParam) {
-				return []flow.Tag{"isglobal"}
+			// (inside a helper of the dispatch analysed in its context, the helper's ctx parameter stands for the dispatch's)
+			if core.IsPkgFunc(callee, pTM, "IsGlobalTx") && len(call.Args) == 1 {
+				if o := core.ObjOf(pkg.TypesInfo, call.Args[0]); o != nil && sp.RootOf(o) == ctxParam {
+					return []flow.Tag{"isglobal"}
+				}
 			}
 			if fi := w.Info(callee); fi != nil && fi.Pkg.PkgPath == pExecAT {
 				for _, t := range returnedTypes(fi) {
